@@ -1,3 +1,5 @@
+//go:build g_merkle
+
 package main
 
 // C01/C02 leg (a): the InsertionProof / DeletionProof gadgets on EVERY tuple of a tiny field,
